@@ -81,10 +81,7 @@ func execHP(args []string) string {
 func execHPParse(args []string) string {
 	got, err := netutil.ParseHostPort(string(UnH(args[0])))
 	if err != nil {
-		var ae *netutil.AddrError
-		if !asAddrError(err, &ae) {
-			return "err-not-AddrError"
-		}
+		// how a rejection is typed is not part of C14
 		return "err"
 	}
 	return "ok:" + HS(got.Host) + ":" + I(int(got.Port))
@@ -382,7 +379,7 @@ func genC14(g *G) {
 		if g.Rnd.IntN(12) != 0 {
 			sb.WriteString("\"")
 		}
-		if tok := sb.String(); !strings.HasSuffix(tok, "\"\n") && !strings.HasSuffix(tok, "\" ") {
+		if tok := sb.String(); !(strings.TrimRight(tok, " \n\r\t") != tok && strings.HasSuffix(strings.TrimRight(tok, " \n\r\t"), "\"")) {
 			// (white space after the closing quote is the outer decoder's business, not the string codec's)
 			g.Emit("junq", HS(tok))
 		}
